@@ -292,28 +292,29 @@ theorem gx_tryCleanupData (s : St) (d : Nat) (hx : LeX (fun _ => 0) s) : GStep (
     · exact GStep.refl s
   · exact GStep.refl s
 
-theorem optOne_start_le (t : TrkDsp) (sys a : Nat) :
-    optOne a (t.start sys).2 ≤ hcount a (t.prepared.map (·.2.2)) + optOne a t.curHandle := by
-  have := TrkDsp.start_handles t sys a; omega
+theorem optOne_start_le (t : TrkDsp) (sys src : Nat) (hd : Handle) (a : Nat) :
+    optOne a (t.start sys src hd).2 ≤ hcount a (t.prepared.map (·.2.2)) + optOne a t.curHandle := by
+  have := TrkDsp.start_handles t sys src hd a; omega
 
 theorem gx_setupK (s : St) (k : Kind) (sys : Nat) (hx : LeX (fun _ => 0) s) : GStep (fun _ => 0) (fun _ => 0) s (setupK s k sys) := by
   cases k <;> simp only [setupK]
   · exact GStep.refl s
   · exact (GStep.refl s).right ⟨⟨rfl, rfl, rfl, rfl, rfl, rfl⟩, rfl, rfl, rfl⟩
   · exact (GStep.refl s).right ⟨⟨rfl, rfl, rfl, rfl, rfl, rfl⟩, rfl, rfl, rfl⟩
-  · have h1 : GStep (fun a => trkH a s) (fun a => trkH a ({ s with trkDsp := (s.trkDsp.start sys).1 } : St)) s
-        ({ s with trkDsp := (s.trkDsp.start sys).1 } : St) := gx_setTrk rfl rfl rfl rfl rfl rfl rfl
-    have hpos : ∀ a, a ∉ ({ s with trkDsp := (s.trkDsp.start sys).1 } : St).sigs →
-        optOne a (s.trkDsp.start sys).2 ≤ ({ s with trkDsp := (s.trkDsp.start sys).1 } : St).arcRc a := by
+  · rename_i src hd
+    have h1 : GStep (fun a => trkH a s) (fun a => trkH a ({ s with trkDsp := (s.trkDsp.start sys src hd).1 } : St)) s
+        ({ s with trkDsp := (s.trkDsp.start sys src hd).1 } : St) := gx_setTrk rfl rfl rfl rfl rfl rfl rfl
+    have hpos : ∀ a, a ∉ ({ s with trkDsp := (s.trkDsp.start sys src hd).1 } : St).sigs →
+        optOne a (s.trkDsp.start sys src hd).2 ≤ ({ s with trkDsp := (s.trkDsp.start sys src hd).1 } : St).arcRc a := by
       intro a ha
       have h1 := hx.trk a ha
-      have h2 := optOne_start_le s.trkDsp sys a
+      have h2 := optOne_start_le s.trkDsp sys src hd a
       rw [trkH_eq] at h1
       show _ ≤ s.arcRc a
       omega
-    have h2 := gx_dropOpt ({ s with trkDsp := (s.trkDsp.start sys).1 } : St) (s.trkDsp.start sys).2 hpos
+    have h2 := gx_dropOpt ({ s with trkDsp := (s.trkDsp.start sys src hd).1 } : St) (s.trkDsp.start sys src hd).2 hpos
     refine (GStep.trans h1 h2 (fun x hx => hx)).zero (fun a => ?_)
-    have := TrkDsp.start_handles s.trkDsp sys a
+    have := TrkDsp.start_handles s.trkDsp sys src hd a
     simp only [trkH_eq]
     omega
   · exact (GStep.refl s).right ⟨⟨rfl, rfl, rfl, rfl, rfl, rfl⟩, rfl, rfl, rfl⟩
@@ -507,8 +508,8 @@ theorem gx_applyCmd (s : St) (c : Cmd) (hx : LeX (fun a => cmdH a c) s) (hf : s.
       gx_setTrk rfl rfl rfl rfl rfl rfl rfl
     have h2 : GStep (fun _ => 0) (fun _ => 0)
         ({ s with trkDsp := { s.trkDsp with prepared := s.trkDsp.prepared ++ [(sys, src, h)] } } : St)
-        (({ s with trkDsp := { s.trkDsp with prepared := s.trkDsp.prepared ++ [(sys, src, h)] } } : St).push [.runnerStart sys (.dspReact src)]) :=
-      gx_push_plain ⟨rfl, rfl, rfl, rfl, rfl, rfl, rfl⟩ rfl [.runnerStart sys (.dspReact src)] rfl (fun _ => rfl)
+        (({ s with trkDsp := { s.trkDsp with prepared := s.trkDsp.prepared ++ [(sys, src, h)] } } : St).push [.runnerStart sys (.dspReact src h)]) :=
+      gx_push_plain ⟨rfl, rfl, rfl, rfl, rfl, rfl, rfl⟩ rfl [.runnerStart sys (.dspReact src h)] rfl (fun _ => rfl)
     have h3 := GStep.trans h1 h2 (fun x hx => hx)
     have hk : ∀ a, trkH a ({ s with trkDsp := { s.trkDsp with prepared := s.trkDsp.prepared ++ [(sys, src, h)] } } : St) = trkH a s + hOne a h := by
       intro a; simp [trkH_eq, hcount_cons, hOne]; omega
